@@ -13,7 +13,7 @@ from ..ctl import ProcessState
 from ._common import CtlProperty, default_sample, describe_unit, enter_trace, features
 
 ID = 'C06'
-ALPHABET = (('resume', 'v1'), ('resume', 'v2'), ('resume',), ('pause',), ('play',))
+ALPHABET = (('resume', 'v1'), ('resume', None), ('resume',), ('pause',), ('play',))
 
 
 class Cfg(ctl.Config):
@@ -102,7 +102,7 @@ def run_check(tier: str, seed: int, workers: Any) -> Dict[str, Any]:
     budget = {'K': 2, 'J': 2} if tier == 'quick' else {'K': 3, 'J': 3}
     return runner.run_explorer(
         factory, (), units_for(tier), budget, seed, workers,
-        rule='every placement of <=J resume calls (values v1, v2, none) and <=K pause/play requests between any two loop '
+        rule='every placement of <=J resume calls (values v1, None, no value) and <=K pause/play requests between any two loop '
              'callbacks of every generated waiting program (x scripted listener requests); run closed by play and by a '
              'resume only if none was accepted; non-trivial = an accepted resume together with a pause/play request',
         assumptions=['single event loop thread; control calls land between two loop callbacks'],
